@@ -54,5 +54,18 @@ CHECKS.update({
            "All 120 (KNN) / all (unsupervised) answer sequences over the criterion alphabet for every k range up to 4, and all lattice training/validation sets with the real criterion recorded; oracle = smallest best candidate and final model built with it.", engine="explorer-D"),
 })
 
+CHECKS.update({
+ "C10": _e("bounded-exhaustive differential exploration: every ordered train index set x metrics x file formats x models, file written by the library's own routine",
+           "For every dataset in the bounds the distance file is produced by pre_compute_distance (.txt and .csv) and every ordered train/test index split is trained and predicted twice (file-fed vs feature-fed); node state, order, best_k, clusters and predictions must be bit-identical; get_distances() vs the metric on all ordered pairs."),
+ "C17": _e("stateless choice exploration of every RNG answer sequence of SupervisedOPF.learn by prefix replay; bounded-exhaustive exploration of predict marking and prune runs",
+           "All 648 tiny learn configurations are explored over every sequence of answers of the intercepted random draw (complete), each execution checked for sample conservation and best-model retention; relevance marking is checked against every choice of exhaustive minimisers on all forests of the C03 families; prune re-fit sets are checked against the flags.", engine="explorer-D"),
+ "C18": _e("stateless choice exploration: every permutation answer of the intercepted numpy permutation in split; bounded-exhaustive exploration of all small OPF binary datasets through the converters/loaders/parser",
+           "split/split_with_index/merge are run for every permutation the RNG could return (n<=5), every percentage and label pattern; all small datasets are written as OPF binaries and taken through opf2txt/csv/json, the loaders, the parser and Subgraph(from_file).", engine="explorer-D"),
+ "C19": _e("explicit enumeration of all enabled save/load/predict operation sequences (prefix replay) for every kind x metric x distance mode, field-by-field state comparison",
+           "Every enabled sequence of {save, load into fresh, predict original, predict loaded, save loaded} up to depth 3 (4) for 4 kinds x 47 metrics (x pre-computed mode), with the original's full state hashed around save, the loaded state compared field by field and predictions compared; separate-interpreter load.", engine="explorer-B"),
+ "C20": _e("bounded-exhaustive enumeration of all (labels, predictions) vectors and small matrices against exact rational definitions",
+           "All label/prediction pairs with K<=3 (4), length<=5 (6) in both list and array form and all small matrices: every measure is compared with the statement's definition evaluated in Fraction arithmetic."),
+})
+
 NOT_APPLICABLE = {p: "check not built yet (build in progress; see DESIGN.md section 7)" for p in
                   ["C%02d" % i for i in range(1, 21)]}
